@@ -1464,6 +1464,8 @@ def thread_check(prop, tier, seed, t0, syss, kinds, real_only=()):
             fine_cfgs += [c + " free=1" for c in THREAD_EXPLORE[sysname][:k] if not (sysname == "combine" and "q0=1,3" in c)]
         if tier == "thorough" and "merge" in syss:
             fine_cfgs += THREAD_EXPLORE_FINE3
+        if "takemerge" in real_only:
+            fine_cfgs += [c + " free=1" for c in THREAD_EXPLORE["takemerge"][:2 if tier == "quick" else 4]]
         def explore_fine(cfg):
             return cfg, sh([DRIVER, "texplore", "3"] + cfg.split(), timeout=3000)
         for cfg, r in parallel_map(explore_fine, fine_cfgs):
@@ -1525,7 +1527,7 @@ def thread_check(prop, tier, seed, t0, syss, kinds, real_only=()):
     free_lines = []
     rnd = random.Random(seed * 31 + 5)
     nfree = 600 if tier == "quick" else 12000
-    for sysname in syss:
+    for sysname in list(syss) + [x for x in real_only if x == "takemerge"]:
         cfgs = THREAD_EXPLORE[sysname]
         for k in range(nfree):
             cfg = cfgs[k % len(cfgs)]
@@ -1546,7 +1548,7 @@ def thread_check(prop, tier, seed, t0, syss, kinds, real_only=()):
     # take, merge and combine have an interleaving model at that granularity (ThreadsFine.v): their free runs are
     # compared with the model event by event like the others
     def fine_model(l):
-        return "free=1" in l and re.search(r"sys=(take|merge|combine) ", l) is not None
+        return "free=1" in l and re.search(r"sys=(take|merge|combine|takemerge) ", l) is not None
     ro_lines += [l for l in lines if "free=2" in l]
     lines = [l for l in lines if "free=2" not in l]
     lines += [l for l in free_lines if fine_model(l)]
@@ -1657,13 +1659,27 @@ def thread_check(prop, tier, seed, t0, syss, kinds, real_only=()):
 def thread_known(known, script, trace, bad):
     """a violation of a thread run is a listed finding only if system, kinds and the class of the history match"""
     for f in known["findings"]:
-        if f["op"] != "merge-threads" or not re.search(r"sys=merge\b", script) or "free=1" not in script:
+        if f["op"] == "merge-threads":
+            if not re.search(r"sys=merge\b", script) or "free=1" not in script:
+                continue
+        elif f["op"] == "takemerge-threads":
+            if not re.search(r"sys=takemerge\b", script) or "free=1" not in script:
+                continue
+        else:
             continue
         if not all(":".join(v.split(":")[:2]) in f["kinds"] for v in bad):
             continue
         if f["class"] == "GreetingDuringError" and greeting_during_error(trace):
             return f
+        if f["class"] == "DataBeforeGreeting" and data_before_greeting(trace):
+            return f
     return None
+
+
+def data_before_greeting(trace):
+    """class of KF4: the first delivery to the sink is not its Handshake (a datum overtook the first greeter's thread)"""
+    first = next((t for t in trace.split() if re.search(r":<dn0:", t)), None)
+    return first is not None and not first.endswith(":<dn0:H")
 
 
 def greeting_during_error(trace):
